@@ -111,6 +111,76 @@ fn compress_literals(g: &str) -> String {
     out
 }
 
+/// SeaORM export configuration of a case: vespertide-config's SeaOrmConfig plus the table prefix
+#[derive(Clone, Debug, serde::Serialize, serde::Deserialize)]
+struct ExportCfg {
+    #[serde(default)]
+    seaorm: vespertide_config::SeaOrmConfig,
+    #[serde(default)]
+    prefix: String,
+}
+impl Default for ExportCfg {
+    fn default() -> Self {
+        ExportCfg { seaorm: vespertide_config::SeaOrmConfig::default(), prefix: String::new() }
+    }
+}
+impl G for ExportCfg {
+    fn g(&self, o: &mut String) {
+        let case = match self.seaorm.enum_naming_case {
+            vespertide_config::NameCase::Snake => "CaseSnake",
+            vespertide_config::NameCase::Camel => "CaseCamel",
+            vespertide_config::NameCase::Pascal => "CasePascal",
+        };
+        let _ = write!(o, "(mkSeaCfg {} {} {} {} {})", self.seaorm.extra_enum_derives.gs(), self.seaorm.extra_model_derives.gs(), case,
+            self.seaorm.vespera_schema_type.gs(), self.prefix.gs());
+    }
+}
+
+const DERIVE_POOL: &[&str] = &["Serialize", "Deserialize", "Hash", "Default", "PartialOrd", "Ord", "vespera::Schema", "utoipa::ToSchema", "Clone", "Eq", "Copy"];
+
+fn gen_derives(rng: &mut Rng) -> Vec<String> {
+    let n = match rng.below(4) {
+        0 => 0,
+        1 => 1,
+        _ => rng.range(3, 5),
+    };
+    let mut v: Vec<String> = (0..n).map(|_| rng.pick(DERIVE_POOL).to_string()).collect();
+    // a duplicate (of a configured or of a built-in derive) now and then: the exporter keeps it
+    if n >= 3 && rng.chance(1, 3) {
+        let d = v[0].clone();
+        v.push(d);
+    }
+    v
+}
+
+fn gen_cfg(rng: &mut Rng) -> ExportCfg {
+    let mut c = ExportCfg::default();
+    if rng.chance(1, 6) {
+        return c;
+    }
+    c.seaorm.extra_model_derives = gen_derives(rng);
+    c.seaorm.extra_enum_derives = if rng.chance(1, 3) { vec!["vespera::Schema".to_string()] } else { gen_derives(rng) };
+    c.seaorm.enum_naming_case = *rng.pick(&[vespertide_config::NameCase::Snake, vespertide_config::NameCase::Camel, vespertide_config::NameCase::Pascal]);
+    c.seaorm.vespera_schema_type = rng.chance(1, 2);
+    c.prefix = rng.pick(&["", "", "app_", "x"]).to_string();
+    c
+}
+
+fn render_cfg(t: &TableDef, schema: &[TableDef], cfg: &ExportCfg) -> Result<String, String> {
+    match catch_unwind(AssertUnwindSafe(|| vespertide_exporter::seaorm::render_entity_with_config(t, schema, &cfg.seaorm, &cfg.prefix))) {
+        Ok(s) => Ok(s),
+        Err(_) => Err("panic".into()),
+    }
+}
+
+/// the lines of a SeaORM entity that depend on the export configuration, in output order
+fn cfg_lines(text: &str) -> Vec<String> {
+    text.split('\n')
+        .filter(|l| l.starts_with("#[derive(") || l.starts_with("#[serde(rename_all") || l.starts_with("#[sea_orm(table_name") || l.starts_with("vespera::schema_type!"))
+        .map(|l| l.to_string())
+        .collect()
+}
+
 fn render(orm: Orm, t: &TableDef, schema: &[TableDef]) -> Result<String, String> {
     match catch_unwind(AssertUnwindSafe(|| render_entity_with_schema(orm, t, schema))) {
         Ok(Ok(s)) => Ok(s),
@@ -136,7 +206,7 @@ fn py_header(text: &str) -> (Vec<String>, String) {
     (imports, class)
 }
 
-fn read_models_corpus(dir: &str) -> Vec<(String, Vec<TableDef>)> {
+fn read_models_corpus(dir: &str) -> Vec<(String, Vec<TableDef>, Option<ExportCfg>)> {
     let mut out = vec![];
     if dir.is_empty() {
         return out;
@@ -148,7 +218,8 @@ fn read_models_corpus(dir: &str) -> Vec<(String, Vec<TableDef>)> {
         let Ok(txt) = std::fs::read_to_string(&f) else { continue };
         let Ok(v) = serde_json::from_str::<Value>(&txt) else { continue };
         if let Some(ms) = v.get("models").and_then(|m| serde_json::from_value::<Vec<TableDef>>(m.clone()).ok()) {
-            out.push((f.file_name().unwrap().to_string_lossy().to_string(), ms));
+            let cfg = v.get("config").and_then(|c| serde_json::from_value::<ExportCfg>(c.clone()).ok());
+            out.push((f.file_name().unwrap().to_string_lossy().to_string(), ms, cfg));
         }
     }
     out
@@ -173,10 +244,10 @@ fn read_actions_corpus(dir: &str) -> Vec<(String, MigrationAction)> {
 }
 
 /// run `hexp render1` on one table in a child process; Some(text) if it returns, None if it dies or hangs
-fn render_in_child(cases: &Path, case: usize, table: usize, cap_ms: u64) -> (Option<String>, String) {
+fn render_in_child(cases: &Path, case: usize, table: usize, cap_ms: u64, with_cfg: bool) -> (Option<String>, String) {
     let exe = std::env::current_exe().unwrap();
     let mut child = match std::process::Command::new(exe)
-        .args(["render1", "--cases", cases.to_str().unwrap(), "--case", &case.to_string(), "--table", &table.to_string()])
+        .args(["render1", "--cases", cases.to_str().unwrap(), "--case", &case.to_string(), "--table", &table.to_string(), "--cfg", if with_cfg { "1" } else { "0" }])
         .stdout(std::process::Stdio::piped())
         .stderr(std::process::Stdio::null())
         .spawn()
@@ -223,6 +294,7 @@ fn cmd_gen(args: &[String]) {
     let cap_ms: u64 = arg(args, "--cap-ms", "2500").parse().unwrap();
     // renders per table and Python ORM whose import blocks are all handed to K-exp
     let py_reps: usize = arg(args, "--py-reps", "8").parse().unwrap();
+    let sea_cfg_reps: usize = arg(args, "--sea-cfg-reps", "6").parse().unwrap();
     let outdir = PathBuf::from(arg(args, "--out", "out"));
     let corpus = arg(args, "--corpus", "");
     std::fs::create_dir_all(&outdir).unwrap();
@@ -232,10 +304,12 @@ fn cmd_gen(args: &[String]) {
 
     // ---------------------------------------------------------------- model sets (K-exp, O-C17, O-C18)
     let mut sets: Vec<(String, Vec<TableDef>)> = vec![];
-    for (name, ms) in read_models_corpus(&corpus) {
+    let mut corpus_cfgs: Vec<Option<ExportCfg>> = vec![];
+    for (name, ms, cfg) in read_models_corpus(&corpus) {
         // corpus files hold model files as the user writes them: normalise like `vespertide export`
         let slice = advgen::normalized_slice(&ms).unwrap_or(ms);
         sets.push((format!("corpus:{}", name), slice));
+        corpus_cfgs.push(cfg);
     }
     // systematic import coverage: every pair of import features in one table, singles, all-at-once
     if arg(args, "--import-pairs", "1") == "1" {
@@ -280,12 +354,17 @@ fn cmd_gen(args: &[String]) {
             sets.push((tag.to_string(), m));
         }
     }
+    // the SeaORM export configuration is part of the input: one per model set (a corpus file may fix its own)
+    let cfgs: Vec<ExportCfg> = (0..sets.len()).map(|i| match corpus_cfgs.get(i) {
+        Some(Some(c)) => c.clone(),
+        _ => gen_cfg(&mut rng),
+    }).collect();
     let cases_path = outdir.join("cases.jsonl");
     {
         let mut s = String::new();
         for (i, (tag, m)) in sets.iter().enumerate() {
             let cyc: Vec<bool> = m.iter().map(|t| advgen::fk_cycle_from(m, t)).collect();
-            let _ = writeln!(s, "{}", json!({"idx": i, "tag": tag, "models": m, "cyclic": cyc}));
+            let _ = writeln!(s, "{}", json!({"idx": i, "tag": tag, "models": m, "cyclic": cyc, "config": cfgs[i]}));
         }
         std::fs::write(&cases_path, s).unwrap();
     }
@@ -300,7 +379,7 @@ fn cmd_gen(args: &[String]) {
             let cyclic = advgen::fk_cycle_from(m, t);
             // --- SeaORM
             let (sea_g, sea_j, sea_text) = if cyclic {
-                let (r, how) = render_in_child(&cases_path, i, j, cap_ms);
+                let (r, how) = render_in_child(&cases_path, i, j, cap_ms, false);
                 match r {
                     Some(text) => match seaparse::parse(&text) {
                         Ok(d) => (format!("(SeaOk {})", d.gs()), json!({"status": "ok", "subprocess": how, "o17": seaparse::oracle(&d, &names)}), Some(text)),
@@ -362,7 +441,33 @@ fn cmd_gen(args: &[String]) {
                 }
                 Err(_) => vec![],
             };
-            xts.push(format!("(mkXT {} {} {} {} {} {})", sea_g, sa_variants.gs(), sm_variants.gs(), sa_class.gs(), invalid.gs(), sm_text.gs()));
+            // SeaORM under the case's configuration: repeated renders, byte comparison, configuration lines to K-exp
+            let cfg = &cfgs[i];
+            let mut cfg_variants: Vec<Vec<String>> = vec![];
+            let mut cfg_rep = true;
+            let cfg_first: Result<String, String> = if cyclic {
+                render_in_child(&cases_path, i, j, cap_ms, true).0.ok_or_else(|| "diverged".to_string())
+            } else {
+                render_cfg(t, m, cfg)
+            };
+            for k in 0..sea_cfg_reps {
+                let x = if k == 0 { cfg_first.clone() } else if cyclic { render_in_child(&cases_path, i, j, cap_ms, true).0.ok_or_else(|| "diverged".to_string()) } else { render_cfg(t, m, cfg) };
+                if x != cfg_first {
+                    cfg_rep = false;
+                }
+                if let Ok(text) = &x {
+                    let ls = cfg_lines(text);
+                    if !cfg_variants.contains(&ls) {
+                        cfg_variants.push(ls);
+                    }
+                }
+                if cyclic && k >= 1 {
+                    break;
+                }
+            }
+            let cfg_obs = json!({"rep": cfg_rep, "perm": true, "hash": cfg_first.as_ref().map(|x| format!("{:016x}", fnv(x))).unwrap_or_else(|e| e.clone()),
+                "variants": if cfg_rep { Value::Null } else { json!(cfg_variants) }});
+            xts.push(format!("(mkXT {} {} {} {} {} {} {})", sea_g, sa_variants.gs(), sm_variants.gs(), sa_class.gs(), invalid.gs(), sm_text.gs(), cfg_variants.gs()));
             // --- O-C18 in process: repeated renders and permuted slices
             let mut c18 = serde_json::Map::new();
             for (orm, oname) in ORMS {
@@ -405,11 +510,12 @@ fn cmd_gen(args: &[String]) {
                     let _ = writeln!(texts, "{}", json!({"case": i, "table": j, "orm": oname, "text": x}));
                 }
             }
+            c18.insert("seaorm_cfg".into(), cfg_obs);
             tabs.push(json!({"name": t.name, "cyclic": cyclic, "sea": sea_j, "c18": Value::Object(c18),
                 "py_status": {"sqlalchemy": sa.as_ref().err(), "sqlmodel": sm.as_ref().err()},
                 "n_fk": t.constraints.iter().filter(|c| matches!(c, vespertide_core::TableConstraint::ForeignKey{..})).count()}));
         }
-        shard_cases.push(compress_literals(&format!("(mkXC {} [{}])", m.gs(), xts.join("; "))));
+        shard_cases.push(compress_literals(&format!("(mkXC {} {} [{}])", m.gs(), cfgs[i].gs(), xts.join("; "))));
         let _ = writeln!(obs_lines, "{}", json!({"idx": i, "tag": tag, "tables": tabs}));
     }
     let header = "From VV.EXP Require Import CorrExp.\n";
@@ -455,7 +561,7 @@ fn cmd_gen(args: &[String]) {
         let _ = writeln!(c16, "{}", json!({"idx": n16, "tag": tag, "models": models, "history": history, "tool_history": tool}));
         n16 += 1;
     };
-    for (name, ms) in read_models_corpus(&corpus) {
+    for (name, ms, _) in read_models_corpus(&corpus) {
         push16(&mut c16, &format!("corpus:{}", name), &ms, &vec![], true);
     }
     for (name, a) in read_actions_corpus(&corpus) {
@@ -532,6 +638,11 @@ fn cmd_render(args: &[String]) {
                 let r = render(orm, t, &m);
                 let _ = writeln!(out, "{} {} {} {}", i, j, oname, r.map(|x| format!("{:016x}", fnv(&x))).unwrap_or_else(|e| e.replace(' ', "_")));
             }
+            if !cyclic {
+                let cfg: ExportCfg = serde_json::from_value(c["config"].clone()).unwrap_or_default();
+                let r = render_cfg(t, &m, &cfg);
+                let _ = writeln!(out, "{} {} seaorm_cfg {}", i, j, r.map(|x| format!("{:016x}", fnv(&x))).unwrap_or_else(|e| e.replace(' ', "_")));
+            }
         }
     }
     std::fs::write(arg(args, "--out", "renders.txt"), out).unwrap();
@@ -543,7 +654,12 @@ fn cmd_render1(args: &[String]) {
     let ti: usize = arg(args, "--table", "0").parse().unwrap();
     let c = cases.iter().find(|c| c["idx"].as_u64() == Some(ci as u64)).expect("case");
     let m: Vec<TableDef> = serde_json::from_value(c["models"].clone()).expect("models");
-    let s = render_entity_with_schema(Orm::SeaOrm, &m[ti], &m).expect("render");
+    let s = if arg(args, "--cfg", "0") == "1" {
+        let cfg: ExportCfg = serde_json::from_value(c["config"].clone()).unwrap_or_default();
+        vespertide_exporter::seaorm::render_entity_with_config(&m[ti], &m, &cfg.seaorm, &cfg.prefix)
+    } else {
+        render_entity_with_schema(Orm::SeaOrm, &m[ti], &m).expect("render")
+    };
     print!("{}", s);
 }
 
